@@ -88,6 +88,11 @@ func vCheckStream(label string, s *vRawSink, perG [][]string) {
 
 type vPayload4 struct{ N int }
 
+// zap4Below enables the levels below l.
+type zap4Below zapcore.Level
+
+func (b zap4Below) Enabled(l zapcore.Level) bool { return l < zapcore.Level(b) }
+
 func vC04Case(entriesPerG int) {
 	cfg := zapcore.EncoderConfig{MessageKey: "m"}
 	enc := zapcore.NewJSONEncoder(cfg)
@@ -95,7 +100,8 @@ func vC04Case(entriesPerG int) {
 	var core zapcore.Core
 	var buffered *zapcore.BufferedWriteSyncer
 	sinks := []*vRawSink{a}
-	kind := vrt.Choice("core", 4)
+	kind := vrt.Choice("core", 5)
+	lvl1 := zapcore.InfoLevel // the level the second goroutine logs at
 	switch kind {
 	case 0: // Lock(sink)
 		core = zapcore.NewCore(enc, zapcore.Lock(a), zapcore.DebugLevel)
@@ -108,6 +114,12 @@ func vC04Case(entriesPerG int) {
 	case 3: // CombineWriteSyncers (what zap.Open builds): one lock over a multi-writer
 		core = zapcore.NewCore(enc, CombineWriteSyncers(a, b), zapcore.DebugLevel)
 		sinks = append(sinks, b)
+	case 4: // one locked sink shared by a buffered low-level branch and a direct high-level branch of a tee
+		locked := zapcore.Lock(a)
+		buffered = &zapcore.BufferedWriteSyncer{WS: locked, Size: 16, FlushInterval: time.Hour, Clock: vNoTickClock{}}
+		below := zap4Below(zapcore.ErrorLevel)
+		core = zapcore.NewTee(zapcore.NewCore(enc, buffered, below), zapcore.NewCore(enc.Clone(), locked, zapcore.ErrorLevel))
+		lvl1 = zapcore.ErrorLevel
 	}
 	root := New(core)
 	child := root.With(Int("c", 1))
@@ -161,9 +173,9 @@ func vC04Case(entriesPerG int) {
 		defer wg.Done()
 		for i, m := range msgs[1] {
 			if reflected {
-				child.Info(m, Reflect("v", vPayload4{11}))
+				child.Log(lvl1, m, Reflect("v", vPayload4{11}))
 			} else {
-				child.Info(m)
+				child.Log(lvl1, m)
 			}
 			if syncBy == 1 && i == 0 {
 				_ = child.Sync()
@@ -180,7 +192,7 @@ func vC04Case(entriesPerG int) {
 	vrt.Cover("done")
 }
 
-//verif: prop=C04 bounds="2 goroutines, 1 entry each (root logger and a With-child, optionally with a reflected context value and reflected call-site fields; messages carry a symbolic letter), optionally one of them also calling Sync, over {Lock(sink), BufferedWriteSyncer(Size 16: the child's line exceeds the buffer) straight over the sink, tee of two locked cores, CombineWriteSyncers of two sinks}; the raw sink yields in the middle of every write; every interleaving of synchronisation operations with at most 2 preemptions; race monitor on"
+//verif: prop=C04 bounds="2 goroutines, 1 entry each (root logger and a With-child, optionally with a reflected context value and reflected call-site fields; messages carry a symbolic letter), optionally one of them also calling Sync, over {Lock(sink), BufferedWriteSyncer(Size 16: the child's line exceeds the buffer) straight over the sink, tee of two locked cores, CombineWriteSyncers of two sinks, one Lock(sink) shared by a buffered below-Error branch and a direct Error branch of a tee (the second goroutine logs at Error)}; the raw sink yields in the middle of every write; every interleaving of synchronisation operations with at most 2 preemptions; race monitor on"
 func VC04Two() { vC04Case(1) }
 
 //verif: prop=C04 tier=thorough bounds="2 goroutines, 2 entries each (as VC04Two), at most 3 preemptions"
